@@ -313,4 +313,5 @@ PROPERTY = Property(
                  "update_priorities receives indices of shape (B,1) and float32 numpy priorities, as RainbowDQN.learn returns them"],
     wanted_labels=["inverse-cdf-checked", "non-pow2-capacity", "repeated-index", "tiny-priority", "huge-priority",
                    "variate-at-stratum-end", "wrapped", "updated", "cleared"],
+    fuzz=['per_buffer_model', 'segment_tree_differential'],
 )
